@@ -42,6 +42,7 @@ class Defs:
         # legacy view: latest definition per name (used where no use-site line is available)
         self.defs = {}
         for name, lst in self.all.items():
+            lst.sort(key=lambda d: d[0])  # source order (the canonical tree may list the branches of an `if` the other way round)
             self.defs[name] = lst[-1][2]
             branches = {tuple(r) for _, r, _ in lst}
             if len(lst) > 1 and len(branches) > 1:
